@@ -59,6 +59,11 @@ def run_case(mod_name, case, tier, seed, validate_n):
     from vf import rt
     mod = importlib.import_module(mod_name)
     t0 = time.time()
+    try:
+        import resource
+        resource.setrlimit(resource.RLIMIT_AS, (12 << 30, 12 << 30))
+    except Exception:
+        pass
     out = dict(case=case, paths=0, stats=None, violations=[], errors=[], validated=0, val_skipped=0,
                samples=[], notes=[], cut_what={}, classes={})
     qt = getattr(mod, 'QTIMEOUT_MS', {}).get(tier, 10000 if tier == 'quick' else 60000)
@@ -92,6 +97,18 @@ def run_case(mod_name, case, tier, seed, validate_n):
     except Exception:
         out['errors'].append('harness exception on symbolic path (trail %r):\n%s' % (ctx.trail, traceback.format_exc()))
         results = []
+    if out['errors'] and getattr(ctx, 'fail_inputs', None) is not None:
+        # The exploration stopped inside a path (operation not modelled, or an exception).  The case stays
+        # inconclusive, but one point of that path is run concretely: an obligation that fails there is a real
+        # counterexample and is reported as such.
+        c2 = Ctx('conc', inputs=ctx.fail_inputs)
+        try:
+            c2.run_concrete(lambda: mod.harness(dict(case), tier))
+        except BaseException as err:
+            out['errors'].append('concrete run at the stopping point raised %r' % (err,))
+        for (label, detail) in c2.conc_failures:
+            if not any(v['label'] == label for v in out['violations']):
+                out['violations'].append(dict(label=label, inputs=ctx.fail_inputs, detail=detail, count=1))
     out['stats'] = ctx.stats.as_dict()
     out['paths'] = ctx.stats.paths
     out['notes'] = ctx.notes[:20]
